@@ -449,6 +449,12 @@ class Compiler:
         elif isinstance(node, BlockStatement):
             for stmt in node.body:
                 self._collect_var_decls(stmt, var_set)
+        elif isinstance(node, CatchClause):
+            # The catch parameter is a local of the function: closures created in
+            # the catch body share it like any other captured variable
+            if node.param is not None:
+                var_set.add(node.param.name)
+            self._collect_var_decls(node.body, var_set)
         elif hasattr(node, "__dict__"):
             for key, value in node.__dict__.items():
                 if isinstance(value, Node) and not isinstance(
